@@ -130,6 +130,8 @@ theorem li_setWorker (s : State) (w : Nat) (f : Worker → Worker)
       · rw [ih]; simp; rfl
       · rfl
 
+@[simp] theorem li_underflow (s : State) (b : Bool) : li { s with underflow := b } = li s := rfl
+
 @[simp] theorem li_release (s : State) (p : Peer) (n : Nat) : li (release s p n) = li s := by
   unfold release; simp
 
